@@ -14,10 +14,10 @@ theorem renderLines_eq_nil (ls : List Str) : renderLines ls = [] ↔ ls = [] := 
 theorem delete_unknown (st : Store) (log : List Eff) (p : Str) (hp : checkStringOk p = true)
     (h1 : st.pidRefs.get (o.hId p) = none) :
     (deleteObject cfg o (.str p)).run (calm st log) = (.error .pidRefsDoesNotExist, calm st log) := by
-  simp [calm, deleteObject, findObject, runsimp, checkString_of_ok hp, h1]
+  simp [calm, calmL, deleteObject, findObject, runsimp, checkString_of_ok hp, h1]
 
 local macro "delete_simp" hp:ident h1:ident h2:ident hin:ident hls:ident p:ident ls:ident extra:term "," extra2:term : tactic =>
-  `(tactic| simp [calm, deleteObject, findObject, runsimp, checkString_of_ok $hp, $h1:ident, $h2:ident, $hin:ident,
+  `(tactic| simp [calm, calmL, deleteObject, findObject, runsimp, checkString_of_ok $hp, $h1:ident, $h2:ident, $hin:ident,
     updateRefsRemove, removeLines_render $p $ls $hls, overwrite_truncate, deleteMarked, renderLines_eq_nil,
     Prog.run_bind_pe, Prog.run_bind, Loc.marker, dmc_run_eq, dmc_lk, dmc_fault, dmc_pid, dmc_cid, dmc_obj, dmc_tr,
     dmc_to, $extra:term, $extra2:term])
